@@ -103,6 +103,7 @@ let message = function
   | DocSem.UDegenerateStep -> explode "degenerate repetition step"
   | DocSem.UDepOutside -> explode "derived factor depends on a factor outside the design"
   | DocSem.UEmptyCrossing -> explode "empty crossing"
+  | DocSem.UStrided -> explode "run-length constraint on a strided factor: documentation silent"
   | DocSem.UKind k -> k
 let show_res show = function
   | DocSem.Ok a -> show a
